@@ -261,7 +261,8 @@ pub fn c04() -> Result<u64, String> {
             let id = r.below(14);
             match r.below(7) { 0 | 1 | 2 => { let c = r.pick(&pool).clone(); pm.add_tile(id, c.clone()).map_err(|e| e.to_string())?; hs += &format!("add({id},{c:?}) "); m.insert(id, c); }
                 3 | 4 => { pm.remove_tile(id); m.remove(&id); hs += &format!("remove({id}) "); }
-                5 => { let (b, _) = write_at(pm, 0).map_err(|e| format!("save failed after [{hs}]: {e}"))?; pm = PMTiles::from_bytes(b).map_err(|e| format!("reopen failed after [{hs}]: {e}"))?; hs += "save+reopen "; }
+                5 => { let p = [0u64, 10, 127][hs.len() % 3];   // the archive is saved at stream position p and re-opened from there
+                       let (b, _) = write_at(pm, p).map_err(|e| format!("save failed after [{hs}]: {e}"))?; pm = PMTiles::from_bytes(b[p as usize..].to_vec()).map_err(|e| format!("reopen failed after [{hs}]: {e}"))?; hs += &format!("save@{p}+reopen "); }
                 _ => { let mut out = futures::io::Cursor::new(Vec::new()); let b0 = write_at(pm, 0).map_err(|e| e.to_string())?.0;
                        let apm = block_on(PMTiles::from_async_reader(futures::io::Cursor::new(b0))).map_err(|e| e.to_string())?;
                        block_on(apm.to_async_writer(&mut out)).map_err(|e| format!("async save failed after [{hs}]: {e}"))?;
